@@ -849,3 +849,402 @@ def dict_byte(ctx, j, quick, pool):
         ctx.note_drift(f"lzip dictionary byte: model and code differ for {len(diff)} sizes (first {diff[:2]}); header byte differs from encode_dict_size for {hdiff[:2]}")
     ctx.add("dictbyte_sizes_compared", len(model))
     ctx.add("dictbyte_header_bytes_compared", sum(1 for x in res["rows"] if x["hdr"] >= 0))
+
+
+# --------------------------------------------------------------------------- generic two-pass trace validation
+def validate_generic(ctx, j, module, consts, events, index, trace_inv, inv_prop, sig_of, what):
+    """Property-level pass (TVIOL -> violations of the caller's properties) + implementation-shaped pass (drift)."""
+    from concurrent.futures import ThreadPoolExecutor
+    invs = sorted(set(i for p in j.props for i in trace_inv.get(p, [])))
+    with ThreadPoolExecutor(max_workers=2) as tp:
+        fp = tp.submit(validate, module, consts, events, invs, False)
+        fs = tp.submit(validate, module, consts, events, [], True)
+        ok, reached, total, r, tv = fp.result()
+        ok2, reached2, total2, r2, _ = fs.result()
+    ctx.note_tlc(f"trace {what} (property level)", r)
+    ctx.note_tlc(f"trace {what} (implementation-shaped)", r2)
+    if not ok:
+        raise ToolError(f"property-level pass of {module} did not consume the whole trace ({reached} of {total}):\n{r.out[-1500:]}")
+    bad = set()
+    for (inv, rid) in tv:
+        s, r1 = index[rid]
+        bad.add(rid)
+        for pid in inv_prop[inv]:
+            j.violation(pid, f"trace of the real code rejected by the property-level spec {module}: invariant T{inv} violated on run {rid}: "
+                             f"{json.dumps([{k: v for k, v in x.items() if k not in ('at',)} for x in (r1.get('recs') or [])][:10])[:500]}",
+                        dict(sig_of(s), outcome="trace:" + inv), {"scenario": strip(s), "source": "trace", "invariant": inv})
+    nruns = sum(1 for e in events if e["ev"] == "Reset")
+    ctx.cov["traces_validated_against_impl"] = ctx.cov.get("traces_validated_against_impl", 0) + nruns - len(bad)
+    if ok2:
+        ctx.add("traces_explained_by_asbuilt_design", nruns)
+    else:
+        rid = "?"
+        for e in events[:(reached2 or 0) + 1]:
+            if e["ev"] == "Reset":
+                rid = e["id"]
+        nxt = events[reached2] if reached2 is not None and reached2 < len(events) else "?"
+        ctx.note_drift(f"{module} (as-built constants) cannot explain run {rid} at event {reached2} of {total2}: next {json.dumps(nxt)[:300]}")
+    return bad
+
+
+# --------------------------------------------------------------------------- raw LZMA2 chunk protocol (C03 C16 C18)
+EXPORT_L2 = r'''
+ScnC(t) == [tag |-> t, chunks |-> out, rejected |-> rejected, units |-> units, indep |-> indepStarts, finished |-> finished]
+ExportC == finished => PrintT(ToJson(ScnC("scn")))
+CexC(P) == P \/ (PrintT(ToJson(ScnC("cex"))) /\ FALSE)
+XReaderAccepts == CexC(ReaderAccepts)
+XValid == CexC(Valid)
+XDictSync == CexC(DictSync)
+XStateSync == CexC(StateSync)
+XCountUnits == CexC(CountUnits)
+'''
+L2_INV = ["TypeOK", "XReaderAccepts", "XValid", "XDictSync", "XStateSync", "XCountUnits"]
+L2_DICT = 65536
+L2_SEG = 6000
+
+
+def l2_consts(variant=None, **kw):
+    c = dict(MaxChunks="5", ChunkSizeSet="TRUE", Preset='"none"', UncClearsForce=ASBUILT["UncClearsForce"])
+    if variant:
+        c.update(variant)
+    c.update({k: str(v) for k, v in kw.items()})
+    return c
+
+
+def l2_model(consts, invariants, workers=2, timeout=600, coverage=True):
+    d, mod, cfg = core.write_model("Lzma2Chunks, Json", consts, invariants=invariants, extra_defs=EXPORT_L2)
+    return core.run_tlc(mod, cfg, workers=workers, cwd=d, timeout=timeout, coverage=coverage)
+
+
+def l2_write_scn(sid, a, rnd):
+    """Chunk-kind sequence of the model -> data recipe: one write + flush per chunk; compressible data gives an LZMA chunk,
+    random data an uncompressed one; an independent unit starts at the write after the emitted bytes reach chunk_size."""
+    chunks = a["chunks"]
+    any_si = any(c["si"] for c in chunks)
+    calls, cum = [], 0
+    for i, c in enumerate(chunks):
+        nxt_si = i + 1 < len(chunks) and chunks[i + 1]["si"]
+        if c["si"]:
+            cum = 0
+        n = max(L2_SEG, L2_DICT - cum) if nxt_si else L2_SEG
+        cum += n
+        call = {"op": "write", "n": n}
+        if c["kind"] == "unc":
+            call["class"] = "random"
+        else:
+            prev = chunks[i - 1] if i > 0 else None
+            if prev is not None and prev["kind"] == "unc" and not c["si"]:
+                call["copy_of"] = 2 * (i - 1)      # matches reach back into the uncompressed chunk before it
+            else:
+                call["class"] = rnd.choice(["text", "seq", "lowent"])
+        calls.append(call)
+        calls.append({"op": "flush"})
+    calls.append({"op": "finish"})
+    opt = {"preset": rnd.choice([0, 1, 3, 6]), "dict": L2_DICT}
+    if any_si or rnd.random() < 0.5:
+        opt["limit"] = L2_DICT
+    return {"id": sid, "fam": "lzma2_write", "seed": rnd.getrandbits(32), "opt": opt, "calls": calls,
+            "reads": rnd.choice([[4096], [1], [7, 4096, 3], [65536]]), "abstract": a}
+
+
+def l2_sig(s):
+    a = s.get("abstract") or {}
+    ch = a.get("chunks") or []
+    return {"family": "lzma2_write", "chunk_size": "set" if s["opt"].get("limit") else "none",
+            "unc_starts_unit": any(c["si"] and c["kind"] == "unc" for c in ch)}
+
+
+def judge_l2_write(j, s, r, predicted=None, source="tlc-scn"):
+    base = l2_sig(s)
+    rep = {"scenario": strip(s), "source": source}
+    j.nruns += 1
+    if r["outcome"] != "ok" or any(not c["ok"] for c in r.get("calls", [])):
+        j.violation("C19", f"LZMA2Writer failed on valid input: {r['outcome']} {r.get('err') or r.get('calls')}", dict(base, outcome="call_err"), rep)
+        return None
+    obs = [(x["kind"], x["level"]) for x in r["recs"] if x["k"] == "Chunk"]
+    j.classes.add(("lzma2_write", base["chunk_size"], tuple(obs)))
+    rt, rf, mt = r["rt"], r["ref"], r["mt"]
+    if not (rf["ok"] and rf["equal"]):
+        j.violation("C03", f"liblzma does not accept / reproduce the raw LZMA2 stream written by the crate (control bytes "
+                           f"{[hex(x['ctrl']) for x in r['recs'] if x['k'] == 'Chunk']}): {rf['err'] or 'wrong bytes'}", dict(base, outcome="ref_reject"), rep)
+    if not (rt["ok"] and rt["cmp"]["equal"]):
+        j.violation("C01", f"LZMA2 stream written by the crate is not decoded back by LZMA2Reader: {rt['err'] or 'wrong bytes'}", dict(base, outcome="roundtrip"), rep)
+    if rt["ok"] and r["consumed"] != r["file_len"]:
+        j.violation("C16", f"LZMA2Reader consumed {r['consumed']} bytes of a {r['file_len']}-byte stream", dict(base, outcome="consumed"), rep)
+    nreset = sum(1 for (_, lv) in obs if lv == 3)
+    if rt["ok"] and rt["cmp"]["equal"] and mt.get("ok") and r["input_len"] > 0 and mt.get("chunk_count") != nreset:
+        j.violation("C18", f"LZMA2ReaderMT::chunk_count() = {mt.get('chunk_count')} for a stream of {nreset} independent units", dict(base, outcome="unit_count"), rep)
+    if predicted is not None:
+        want = [(c["kind"], c["level"]) for c in predicted["chunks"]]
+        # one write + flush per model chunk: group the observed chunks by the bytes of each write; a large random
+        # segment is emitted as several uncompressed pieces (further EmitUnc steps of the model): compare the first
+        heads, pos, bounds = [], 0, []
+        for c in s["calls"]:
+            if c["op"] == "write":
+                pos += c["n"]
+                bounds.append(pos)
+        acc, bi, start = 0, 0, True
+        ok = True
+        for x in [x for x in r["recs"] if x["k"] == "Chunk"]:
+            if start:
+                heads.append((x["kind"], x["level"]))
+            elif not (x["kind"] == "unc" and x["level"] == 0):
+                ok = False
+            acc += x["usize"]
+            start = bi < len(bounds) and acc == bounds[bi]
+            if start:
+                bi += 1
+            elif bi < len(bounds) and acc > bounds[bi]:
+                ok = False
+        if heads != want or not ok:
+            return f"chunk sequence {obs} differs from the model's {want}"
+    return None
+
+
+JUDGES["lzma2_write"] = lambda j, s, r, source="replay": judge_l2_write(j, s, r, None, source)
+
+
+def l2_events(s, r):
+    ev = [{"ev": "Reset", "id": s["id"]}]
+    for x in r.get("recs") or []:
+        if x["k"] == "Chunk":
+            ev.append({"ev": "Chunk", "kind": x["kind"], "level": x["level"], "props": x["props"], "usize": x["usize"], "csize": x["csize"]})
+    rt, rf, mt = r["rt"], r["ref"], r["mt"]
+    ev.append({"ev": "End", "rt_ok": bool(rt["ok"]), "rt_equal": bool(rt["cmp"]["equal"]), "ref_ok": bool(rf["ok"]), "ref_equal": bool(rf["equal"]),
+               "consumed": r["consumed"], "stream_len": r["file_len"], "mt_ok": bool(mt.get("ok")) and bool(mt.get("cmp", {}).get("equal")),
+               "mt_units": mt.get("chunk_count", -1), "input_len": r["input_len"]})
+    return ev
+
+
+L2_TRACE_INV = {"C03": ["TValid", "TRef"], "C16": ["TConsumed"], "C18": ["TUnits"], "C01": ["TRoundTrip"]}
+L2_INV_PROP = {"Valid": ("C03",), "Ref": ("C03",), "Consumed": ("C16",), "Units": ("C18",), "RoundTrip": ("C01",)}
+
+
+def family_lzma2(ctx, j, quick, rnd, pool):
+    t0 = time.time()
+    f_design = pool.submit(l2_model, l2_consts(), L2_INV, 2)
+    f_design2 = pool.submit(l2_model, l2_consts(ChunkSizeSet="FALSE"), L2_INV, 2)
+    f_export = pool.submit(l2_model, l2_consts(MaxChunks="4" if quick else "5"), ["ExportC"], 2, 600, False)
+    probes = []
+    val, what = REGRESSIONS["UncClearsForce"]
+    if ASBUILT["UncClearsForce"] != val:
+        probes.append(("UncClearsForce", what, pool.submit(l2_model, l2_consts({"UncClearsForce": val}), L2_INV, 2, 600, False)))
+    scns, meta = [], []
+    for name, f in (("Lzma2Chunks design (as built, chunk_size set)", f_design), ("Lzma2Chunks design (as built, no chunk_size)", f_design2)):
+        r = f.result()
+        ctx.note_tlc(name, r)
+        log(f"[tlc] {name}: {r}")
+        if r.ok:
+            ctx.require_coverage(r, ["EmitLzma", "EmitUnc", "Finish"], name)
+        else:
+            cx = printed_json(r, "cex")
+            if not cx:
+                raise ToolError(f"{name}: TLC reports {r.violated} without an exported counter-example")
+            for i, c in enumerate(cx[:2]):
+                scns.append(l2_write_scn(f"cex-{r.violated}-{i}", c, rnd))
+                meta.append(("tlc-cex", None, r.violated))
+    for (k, what, f) in probes:
+        pr = f.result()
+        ctx.add("regression_models_checked")
+        if pr.ok:
+            raise ToolError(f"regressed design {k} does not violate any invariant: the probe is vacuous")
+        for i, c in enumerate(printed_json(pr, "cex")[:2]):
+            scns.append(l2_write_scn(f"probe-{k}-{i}", c, rnd))
+            meta.append(("tlc-regression-cex:" + k, None, pr.violated))
+            ctx.add("regression_probes")
+    er = f_export.result()
+    ctx.note_tlc("Lzma2Chunks scenario export", er)
+    seen, exported = set(), []
+    for c in printed_json(er, "scn"):
+        key = json.dumps(c["chunks"])
+        if key not in seen and c["chunks"]:
+            seen.add(key)
+            exported.append(c)
+    if len(exported) < 20:
+        raise ToolError(f"LZMA2 scenario export produced only {len(exported)} behaviours")
+    cap = 150 if quick else 1500
+    if len(exported) > cap:
+        exported = rnd.sample(exported, cap)
+    for i, c in enumerate(exported):
+        scns.append(l2_write_scn(f"l2-{i}", c, rnd))
+        meta.append(("tlc-scn", c, None))
+    # multi-piece uncompressed chunks, empty input, large compressible input (several LZMA chunks without flush)
+    extra = [
+        ("l2-empty", {"opt": {"preset": 0, "dict": L2_DICT}, "calls": [{"op": "finish"}]}),
+        ("l2-unc2", {"opt": {"preset": 0, "dict": L2_DICT}, "calls": [{"op": "write", "n": 150000, "class": "random"}, {"op": "finish"}]}),
+        ("l2-unc2-cs", {"opt": {"preset": 1, "dict": L2_DICT, "limit": L2_DICT}, "calls": [{"op": "write", "n": 150000, "class": "random"}, {"op": "write", "n": 5000, "copy_of": 0}, {"op": "finish"}]}),
+        ("l2-big", {"opt": {"preset": 1, "dict": L2_DICT, "limit": 100000}, "calls": [{"op": "write", "n": 700000, "class": "mixed"}, {"op": "finish"}]}),
+        ("l2-3mib", {"opt": {"preset": 0, "dict": 1 << 20}, "calls": [{"op": "write", "n": 3 << 20, "class": "zeros"}, {"op": "finish"}]}),
+    ]
+    for sid, body in extra:
+        scns.append(dict(body, id=sid, fam="lzma2_write", seed=rnd.getrandbits(32), reads=[4096]))
+        meta.append(("directed", None, None))
+    res = run_scenarios(scns)
+    log(f"[impl] lzma2_write: {len(scns)} runs of the real LZMA2Writer/LZMA2Reader/LZMA2ReaderMT + liblzma in {time.time()-t0:.1f}s")
+    ndiv = 0
+    for s, r1, (src, st, inv) in zip(scns, res, meta):
+        div = judge_l2_write(j, s, r1, predicted=st if src == "tlc-scn" else None, source=src)
+        if div:
+            ndiv += 1
+            if ndiv <= 3:
+                ctx.note_drift(f"lzma2_write {s['id']}: {div}")
+        if src == "tlc-cex":
+            bad = not (r1.get("rt", {}).get("ok") and r1["rt"]["cmp"]["equal"]) or not (r1.get("ref", {}).get("ok") and r1["ref"]["equal"]) \
+                or (r1.get("mt", {}).get("chunk_count") != sum(1 for x in r1.get("recs", []) if x["k"] == "Chunk" and x["level"] == 3))
+            if not bad:
+                raise ToolError(f"TLC reports {inv} for the as-built Lzma2Chunks design but the implementation does not reproduce it ({s['id']}): "
+                                f"the model misrepresents the code")
+    ctx.add("behaviours_replayed", len(exported))
+    ctx.add("replay_divergences", ndiv)
+    runs = [(s, r1) for s, r1 in zip(scns, res) if r1.get("outcome") == "ok" and "recs" in r1]
+    events, index = [], {}
+    for s, r1 in runs:
+        index[s["id"]] = (s, r1)
+        events.extend(l2_events(s, r1))
+    consts = dict(MaxChunks="1000000", ChunkSizeSet="TRUE", Preset='"none"', UncClearsForce=ASBUILT["UncClearsForce"])
+    validate_generic(ctx, j, "Trace_Lzma2Chunks", consts, events, index, L2_TRACE_INV, L2_INV_PROP, l2_sig, "lzma2_write")
+    return scns, res
+
+
+# --------------------------------------------------------------------------- .lzma expected-size contract (C18 C03 C16)
+EXPORT_LA = r'''
+ScnA == [tag |-> "scn", exp |-> exp, calls |-> calls, cur |-> cur, state |-> state]
+ExportA == (state # "open") => PrintT(ToJson(ScnA))
+'''
+LA_UNIT = 1500
+
+
+def la_write_scn(sid, a, rnd):
+    calls = [{"op": "write", "n": c["n"] * LA_UNIT} if c["op"] == "w" else {"op": "finish"} for c in a["calls"]]
+    opt = {"preset": rnd.choice([0, 1, 4, 6]), "dict": rnd.choice([4096, 65536, 1 << 20])}
+    if a["exp"] >= 0:
+        opt["expected"] = a["exp"] * LA_UNIT
+    return {"id": sid, "fam": "lzma_write", "seed": rnd.getrandbits(32), "opt": opt, "class": rnd.choice(["text", "seq", "random", "mixed", "zeros"]),
+            "calls": calls, "reads": rnd.choice([[4096], [1], [7, 4096, 3], [65536]]), "abstract": a}
+
+
+def la_sig(s):
+    exp = s["opt"].get("expected")
+    total = sum(c.get("n", 0) for c in s["calls"] if c["op"] == "write")
+    return {"family": "lzma_write", "expected": "none" if exp is None else ("equal" if exp == total else ("smaller" if exp < total else "larger"))}
+
+
+def judge_la_write(j, s, r, predicted=None, source="tlc-scn"):
+    base = la_sig(s)
+    rep = {"scenario": strip(s), "source": source}
+    j.nruns += 1
+    if r["outcome"] not in ("ok", "no_file"):
+        j.violation("C19", f"LZMAWriter: {r['outcome']} {r.get('err')}", dict(base, outcome=r["outcome"]), rep)
+        return None
+    exp = s["opt"].get("expected")
+    acc = 0
+    for c in r["calls"]:
+        if c["op"] == "write":
+            if c["ok"] and exp is not None and acc + c["n"] > exp:
+                j.violation("C18", f".lzma writer with expected size {exp} accepted a write of {c['n']} bytes after {acc}", dict(base, outcome="overrun_accepted"), rep)
+            if c["ok"]:
+                acc += c["n"]
+        elif c["op"] == "finish":
+            if c["ok"] and exp is not None and acc != exp:
+                j.violation("C18", f".lzma writer with expected size {exp} finished after {acc} bytes", dict(base, outcome="short_finish"), rep)
+    finished = r["outcome"] == "ok"
+    j.classes.add(("lzma_write", base["expected"], finished, tuple(c["ok"] for c in r["calls"])))
+    if finished:
+        hdr = r["recs"][0]
+        if hdr.get("k") != "LzmaHdr" or hdr["size"] != (exp if exp is not None else -1) or (exp is not None and hdr["size"] != acc):
+            j.violation("C18", f".lzma header declares {hdr.get('size')} bytes, {acc} were written (expected size {exp})", dict(base, outcome="header_size"), rep)
+        rt, rf = r["rt"], r["ref"]
+        if not (rf["ok"] and rf["equal"]):
+            j.violation("C03", f"liblzma does not accept / reproduce the .lzma file written by the crate: {rf['err'] or 'wrong bytes'}", dict(base, outcome="ref_reject"), rep)
+        if not (rt["ok"] and rt["cmp"]["equal"]):
+            j.violation("C01", f".lzma file written by the crate is not decoded back by LZMAReader: {rt['err'] or 'wrong bytes'}", dict(base, outcome="roundtrip"), rep)
+        elif r["consumed"] != r["file_len"]:
+            j.violation("C16", f"LZMAReader ({'declared size' if exp is not None else 'end marker'}) consumed {r['consumed']} bytes of a {r['file_len']}-byte stream",
+                        dict(base, outcome="consumed"), rep)
+    if predicted is not None:
+        want = [c["ok"] for c in predicted["calls"]]
+        got = [c["ok"] for c in r["calls"]]
+        if want != got:
+            return f"call results {got} differ from the model's {want}"
+    return None
+
+
+JUDGES["lzma_write"] = lambda j, s, r, source="replay": judge_la_write(j, s, r, None, source)
+
+
+def la_events(s, r):
+    exp = s["opt"].get("expected")
+    ev = [{"ev": "Reset", "id": s["id"], "exp": -1 if exp is None else exp}]
+    for c in r["calls"]:
+        if c["op"] == "write":
+            ev.append({"ev": "Write", "n": c["n"], "ok": bool(c["ok"])})
+        elif c["op"] == "finish":
+            ev.append({"ev": "Finish", "ok": bool(c["ok"])})
+    fin = r["outcome"] == "ok"
+    ev.append({"ev": "End", "finished": fin, "hdr": r["recs"][0]["size"] if fin else -2, "accepted": r.get("input_len", 0)})
+    return ev
+
+
+LA_TRACE_INV = {"C18": ["TNoOverrun", "TShortRefused", "THeaderExact", "TMarker"]}
+LA_INV_PROP = {"Overrun": ("C18",), "ShortFinish": ("C18",), "Header": ("C18",)}
+
+
+def family_lzma(ctx, j, quick, rnd, pool):
+    t0 = time.time()
+    consts = dict(Expecteds=[-1, 0, 2, 3] if quick else [-1, 0, 1, 2, 3, 5], WriteSizes="{0,1,2,3}", MaxCalls="4" if quick else "5")
+    d, mod, cfg = core.write_model("LzmaAlone, Json", consts, invariants=["TypeOK", "HeaderExact", "NoOverrun", "ShortRefused", "ExportA"],
+                                   extra_defs=EXPORT_LA)
+    # a set constant with a negative member has to be defined in the wrapper module
+    txt = open(os.path.join(d, mod + ".tla")).read().replace("K_Expecteds == <<", "K_Expecteds == {").replace(">>\n", "}\n", 1)
+    open(os.path.join(d, mod + ".tla"), "w").write(txt)
+    r = core.run_tlc(mod, cfg, workers=2, cwd=d, timeout=600)
+    ctx.note_tlc("LzmaAlone design", r)
+    log(f"[tlc] LzmaAlone design: {r}")
+    if not r.ok:
+        raise ToolError(f"LzmaAlone: TLC reports {r.violated} on the contract model itself")
+    ctx.require_coverage(r, ["Write", "Finish"], "LzmaAlone")
+    exported = printed_json(r, "scn")
+    if len(exported) < 50:
+        raise ToolError(f"LzmaAlone export produced only {len(exported)} behaviours")
+    cap = 300 if quick else 3000
+    if len(exported) > cap:
+        exported = rnd.sample(exported, cap)
+    scns = [la_write_scn(f"la-{i}", a, rnd) for i, a in enumerate(exported)]
+    meta = [("tlc-scn", a) for a in exported]
+    # random byte-level scripts
+    for i in range(40 if quick else 400):
+        total = rnd.choice([0, 1, 100, 5000, 70000])
+        exp = rnd.choice([None, total, total, max(0, total - 1), total + 1, 0])
+        calls, left = [], total
+        while left > 0:
+            n = min(left, rnd.choice([1, 100, 4096, left]))
+            calls.append({"op": "write", "n": n})
+            left -= n
+        if rnd.random() < 0.3:
+            calls.insert(rnd.randint(0, len(calls)), {"op": "write", "n": rnd.choice([0, 1, 3000])})
+        calls.append({"op": "finish"})
+        opt = {"preset": rnd.choice([0, 3, 6]), "dict": rnd.choice([4096, 1 << 16, 1 << 20])}
+        if exp is not None:
+            opt["expected"] = exp
+        scns.append({"id": f"la-rand-{i}", "fam": "lzma_write", "seed": rnd.getrandbits(32), "opt": opt, "class": rnd.choice(["text", "random", "seq"]),
+                     "calls": calls, "reads": rnd.choice([[4096], [1], [7, 4096, 3]])})
+        meta.append(("random", None))
+    res = run_scenarios(scns)
+    log(f"[impl] lzma_write: {len(scns)} runs of the real LZMAWriter/LZMAReader + liblzma in {time.time()-t0:.1f}s")
+    ndiv = 0
+    for s, r1, (src, a) in zip(scns, res, meta):
+        div = judge_la_write(j, s, r1, predicted=a if src == "tlc-scn" else None, source=src)
+        if div:
+            ndiv += 1
+            if ndiv <= 3:
+                ctx.note_drift(f"lzma_write {s['id']}: {div}")
+    ctx.add("behaviours_replayed", len(exported))
+    ctx.add("replay_divergences", ndiv)
+    events, index = [], {}
+    for s, r1 in zip(scns, res):
+        if r1.get("outcome") in ("ok", "no_file") and "calls" in r1:
+            index[s["id"]] = (s, r1)
+            events.extend(la_events(s, r1))
+    tc = dict(Expecteds="{0}", WriteSizes="{0}", MaxCalls="1000000")
+    validate_generic(ctx, j, "Trace_LzmaAlone", tc, events, index, LA_TRACE_INV, LA_INV_PROP, la_sig, "lzma_write")
+    return scns, res
